@@ -218,7 +218,7 @@ def check_cli_files(ctx, count):
 
 def run(ctx):
     rng = ctx.rng
-    n = 8 if ctx.thorough else 1
+    n = 16 if ctx.thorough else 1
     check_cli_files(ctx, 40 * n)
     check_roundtrip(ctx, "wf-both", [T.rand_assembly(rng, "both") for _ in range(300 * n)], "both")
     check_roundtrip(ctx, "wf-agp", [T.rand_assembly(rng, "agp") for _ in range(300 * n)], "agp")
